@@ -242,6 +242,18 @@ fn message_prefix_errors(inp: u32) -> u32 {
     u32::min(err_start, err_end)
 }
 
+#[cfg(feature = "verif-hooks")]
+#[allow(missing_docs)]
+pub(crate) mod verif {
+    //! Verification hooks: private constants and functions
+    pub fn prefix_search_len() -> u32 {
+        super::Framer::PREFIX_SEARCH_LEN
+    }
+    pub fn message_prefix_errors(inp: u32) -> u32 {
+        super::message_prefix_errors(inp)
+    }
+}
+
 #[cfg(test)]
 mod tests {
     use super::super::waveform;
